@@ -519,6 +519,16 @@ def convert_number(h: Any, which: str, args: List[AV], node: Any) -> AV:
         if key not in h.conversions:
             h.conversions[key] = h.i.new_int(f"int({v.label})") if which == "int" else Term("float", (v,), h.ctx.new_id())
         return h.conversions[key]
+    if isinstance(v, Term) and v.op == "strpart":
+        key = (which, "of-strpart", v.id)
+        h.ctx.atom_info[key] = {"kind": "convert", "which": which, "recv": v}
+        if h.ctx.choose(key, ["ok", "ValueError"]) != "ok":
+            raise h.raise_("ValueError", f"invalid literal for {which}()", node)
+        if which == "int":
+            if h.ctx.choose(("int-digit-limit", v.id), ["ok", "ValueError"]) != "ok":
+                raise h.raise_("ValueError", "Exceeds the limit (4300 digits) for integer string conversion", node)
+            return h.i.new_int(f"int({v!r})")
+        return Term("float", (v,), h.ctx.new_id())
     if isinstance(v, Term) and v.op == "decimal":
         # int(Decimal) truncates; finite values never fail (a huge exponent only takes long)
         return h.i.new_int(f"int({v!r})") if which == "int" else Term("float", (v,), h.ctx.new_id())
@@ -783,6 +793,11 @@ def call_method(h: Any, recv: AV, name: str, args: List[AV], kwargs: Dict[str, A
             key = ("strpred", name, recv.id, repr(args))
             ctx.atom_info[key] = {"kind": "strpred", "name": name, "recv": recv, "args": list(args)}
             return Const(ctx.choose(key, [False, True]))
+        if name in ("partition", "rpartition") and isinstance(recv, SymStr) and len(args) == 1 and isinstance(args[0], Const) and isinstance(args[0].value, str) and args[0].value:
+            # (head, separator or "", tail): three strings derived from the receiver; what they are is asked later
+            # through conversions / emptiness tests, which the lexical rules translate back to the receiver
+            parts = [Term("strpart", (recv, name, args[0].value, k), ctx.new_id()) for k in range(3)]
+            return PyTuple(tuple(parts))
         if name == "encode" and isinstance(recv, SymStr):
             org = recv.origin
             if org and org[0] == "substr":
